@@ -104,7 +104,7 @@ def stress(ctx, prop, ms=None, race=False):
 SS_LABEL = {"uget.afterLookup": "uget.afterLookup", "ukeys.afterLookup": "ukeys.afterLookup", "gc.horizon": "gc.horizon",
             "gc.collected": "gc.collected", "begin.start": "begin.start", "txrepo.store": "txrepo.store", "utx.start": "utx.start"}
 SS_STAY = {"utx.betweenAB", "utx.seqB"}          # inside the commit's critical section: one step of the model
-SS_ENTRY = {"begin.start", "utx.start"}          # labels of entry program counters: reached by the call itself
+SS_ENTRY = {"begin.start"}                       # labels of entry program counters: reached by the call itself
 
 
 def smallstep_cmds(run):
@@ -155,7 +155,9 @@ def smallstep_cmds(run):
         if q and not q.startswith("op:"):
             if q.startswith("mut:"):
                 return None
-            if q in SS_STAY or (q in SS_ENTRY and called):
+            if q in SS_STAY and called:      # straight from the call into UpdateTx's critical section: txRepo.Delete is done
+                cmds.append("conc until %d utx.start" % tid[a]); exp.append("at:utx.start")
+            elif q in SS_STAY or (q in SS_ENTRY and called):
                 cmds.append("conc at %d" % tid[a]); exp.append("utx.start" if q in SS_STAY else SS_LABEL[q])
             elif q in SS_LABEL:
                 cmds.append("conc until %d %s" % (tid[a], SS_LABEL[q])); exp.append("at:" + SS_LABEL[q])
